@@ -419,6 +419,13 @@ class VC:
         cx.ghost["cut%d" % k] = new
         return new
 
+    def contains(self, container, item, negate=False):
+        if hasattr(container, "sym_contains"):
+            r = container.sym_contains(item)
+            return lnot(r) if negate else r
+        r = item in container
+        return (not r) if negate else r
+
     # -- comprehensions
     def unpack(self, shape, t):
         return _flatten_like(shape, t)
